@@ -11,6 +11,7 @@ functions, raising or not), every triple list, every configuration and every sch
 -/
 import CobaVerif.Lemmas.C01
 import CobaVerif.Generated.C01Config
+import CobaVerif.Generated.C01Seeds
 
 namespace Coba.C01
 
@@ -329,5 +330,125 @@ theorem copy_flag_matches_source (ts : List Triple) (ei e li l vi v : Nat) (cp :
     (h : Task.eval ei e li l vi v cp ∈ makeTasks .none ts) :
     cp = Coba.Generated.C01.copyFlag (lrnCount ts l) ∧ Coba.Generated.C01.copyCountsLearners = true :=
   ⟨by rw [(mem_makeTasks_eval h).2.2]; simp [Coba.Generated.C01.copyFlag], by decide⟩
+
+/-! ## phase 5: PMF-answering and `learning_info`-writing learners, chunk()/cache() pipelines in the SequentialCB runs
+
+`seqCompsX w` (Model/C01.lean, phase 5): a learner object is ordinary (`ext l = none`, phase 4), answers with PMFs
+(`.pmf`: behind a `SafeLearner` whose `CobaRandom` is freshly seeded for every evaluation with the evaluator's seed or
+else the experiment seed — C06 `wrapPmf` over the C05 stream) or writes `CobaContext.learning_info` (`.info`: C06
+`evaluateI`).  Environment pipelines enter through `chunkKey`. -/
+
+section phase5
+variable {σ V R : Type} [DecidableEq V] [Coba.C06.RewardFn R V]
+
+/-- for every configuration and schedule the Result of the experiment over SequentialCB with PMF / info learners is
+the specified one -/
+theorem run_eq_spec_sequentialCB_ext (w : SeqWorldX σ V R P) (cfg : Cfg) (picks : List Nat) (seed : Nat)
+    (ts : List Triple) : run (seqCompsX w) cfg picks seed ts = resultS (seqCompsX w) seed ts :=
+  run_eq_spec' (seqCompsX w) cfg picks seed ts
+
+/-- hence it does not depend on the execution configuration or the schedule -/
+theorem sequentialCB_ext_config_independent (w : SeqWorldX σ V R P) (cfg cfg' : Cfg) (picks picks' : List Nat)
+    (seed : Nat) (ts : List Triple) :
+    run (seqCompsX w) cfg picks seed ts = run (seqCompsX w) cfg' picks' seed ts := by
+  rw [run_eq_spec' (seqCompsX w) cfg picks seed ts, run_eq_spec' (seqCompsX w) cfg' picks' seed ts]
+
+/-- the extension is conservative: a world without extended learner objects is the phase-4 world -/
+theorem sequentialCB_ext_conservative (w0 : SeqWorld σ V R P) : seqCompsX ⟨w0, fun _ => none⟩ = seqComps w0 :=
+  seqCompsX_plain' w0
+
+/-- the rows of a listed triple whose learner answers with PMFs are, numbered from 1, the rows SequentialCB produces
+from the learner's PRISTINE state with the actions drawn by a generator FRESHLY seeded with the evaluator's seed, or
+the experiment seed when it has none — in every configuration, whatever else the experiment lists -/
+theorem sequentialCB_pmf_rows (w : SeqWorldX σ V R P) (cfg : Cfg) (picks : List Nat) (seed : Nat) (ts : List Triple)
+    (t : Triple) (ht : t ∈ ts) (Pm : Coba.C06.PmfLearner σ V) (dflt : V) (hx : w.ext t.2.1 = some (.pmf Pm dflt))
+    (inter : List (Coba.C06.Dict (Coba.C06.Fld V R))) (henv : w.base.envRows t.1 = .ok inter) :
+    (run (seqCompsX w) cfg picks seed ts).rowsOf (idKey ts t) =
+      match Coba.C06.evaluate (w.base.cfgOf t.2.2) (Coba.C06.wrapPmf Pm dflt) (w.base.batch t.1) inter
+              (w.base.init t.2.1, Coba.C05.normInt (Int.ofNat ((w.base.valSeed t.2.2).getD seed))) with
+      | .ok r => numbered r.2.2
+      | .rejected _ => []
+      | .crashed _ => [] := sequentialCB_pmf_rows' w cfg picks seed ts t ht Pm dflt hx inter henv
+
+/-- the rows of a listed triple whose learner writes `learning_info` (un-batched environment) are the yielded rows of
+`evaluateI` on the pristine learner: info written during an interaction is in that interaction's row only -/
+theorem sequentialCB_info_rows (w : SeqWorldX σ V R P) (cfg : Cfg) (picks : List Nat) (seed : Nat) (ts : List Triple)
+    (t : Triple) (ht : t ∈ ts) (L : Coba.C06.InfoLearner σ V) (hx : w.ext t.2.1 = some (.info L))
+    (inter : List (Coba.C06.Dict (Coba.C06.Fld V R))) (henv : w.base.envRows t.1 = .ok inter)
+    (hb : w.base.batch t.1 = none) :
+    (run (seqCompsX w) cfg picks seed ts).rowsOf (idKey ts t) =
+      match Coba.C06.evaluateI (w.base.cfgOf t.2.2) L inter (w.base.init t.2.1) with
+      | .ok r => numbered r.2.2.1
+      | .rejected _ => []
+      | .crashed _ => [] := sequentialCB_info_rows' w cfg picks seed ts t ht L hx inter henv hb
+
+/-- an ordinary learner object keeps exactly its phase-4 rows when PMF / info learner objects are added to the world -/
+theorem sequentialCB_ext_plain_rows (w : SeqWorldX σ V R P) (cfg : Cfg) (picks : List Nat) (seed : Nat)
+    (ts : List Triple) (t : Triple) (ht : t ∈ ts) (hx : w.ext t.2.1 = none) :
+    (run (seqCompsX w) cfg picks seed ts).rowsOf (idKey ts t) =
+      (run (seqComps w.base) cfg picks seed ts).rowsOf (idKey ts t) :=
+  sequentialCB_ext_plain_rows' w cfg picks seed ts t ht hx
+
+/-- a failing read costs exactly that triple's rows, whatever kind of learner -/
+theorem sequentialCB_ext_read_failure (w : SeqWorldX σ V R P) (cfg : Cfg) (picks : List Nat) (seed : Nat)
+    (ts : List Triple) (t : Triple) (ht : t ∈ ts) (err : Err) (henv : w.base.envRows t.1 = .error err) :
+    (run (seqCompsX w) cfg picks seed ts).rowsOf (idKey ts t) = [] :=
+  sequentialCB_ext_read_failure' w cfg picks seed ts t ht err henv
+
+/-- batched environment (goal 2): a learner answering a batched `predict` with rows of `len` items whose first batch
+has exactly `len` rows is asked to `predict` once more on the first interaction by `SafeLearner.batch_order`; the rows
+of the triple are those SequentialCB produces with the learner seen through that probing wrapper (`probeWrap`), on the
+pristine learner, in every configuration -/
+theorem sequentialCB_probe_rows (w : SeqWorldX σ V R P) (cfg : Cfg) (picks : List Nat) (seed : Nat) (ts : List Triple)
+    (t : Triple) (ht : t ∈ ts) (L : Coba.C06.Learner σ V) (len n : Nat) (hx : w.ext t.2.1 = some (.rowLen L len))
+    (inter : List (Coba.C06.Dict (Coba.C06.Fld V R))) (henv : w.base.envRows t.1 = .ok inter)
+    (hb : w.base.batch t.1 = some n) (hsq : min n inter.length = len) :
+    (run (seqCompsX w) cfg picks seed ts).rowsOf (idKey ts t) =
+      match Coba.C06.evaluate (w.base.cfgOf t.2.2) (probeWrap L len) (some n) inter (w.base.init t.2.1, 0, none) with
+      | .ok r => numbered r.2.2
+      | .rejected _ => []
+      | .crashed _ => [] := sequentialCB_probe_rows' w cfg picks seed ts t ht L len n hx inter henv hb hsq
+
+/-- … and when the environment is not batched or the first batch is not square no probe is made: the phase-4 rows -/
+theorem sequentialCB_noprobe_rows (w : SeqWorldX σ V R P) (cfg : Cfg) (picks : List Nat) (seed : Nat) (ts : List Triple)
+    (t : Triple) (ht : t ∈ ts) (L : Coba.C06.Learner σ V) (len : Nat) (hx : w.ext t.2.1 = some (.rowLen L len))
+    (inter : List (Coba.C06.Dict (Coba.C06.Fld V R))) (henv : w.base.envRows t.1 = .ok inter)
+    (hsq : ∀ n, w.base.batch t.1 = some n → min n inter.length ≠ len) :
+    (run (seqCompsX w) cfg picks seed ts).rowsOf (idKey ts t) =
+      match Coba.C06.evaluate (w.base.cfgOf t.2.2) L (w.base.batch t.1) inter (w.base.init t.2.1) with
+      | .ok r => numbered r.2.2
+      | .rejected _ => []
+      | .crashed _ => [] := sequentialCB_noprobe_rows' w cfg picks seed ts t ht L len hx inter henv hsq
+
+omit [DecidableEq V] [Coba.C06.RewardFn R V] in
+/-- what the probing wrapper is: same answers as the learner; same state moves except that the `k`-th predict of the
+evaluation is followed by one more `predict` on the first call's arguments -/
+theorem probe_is_one_extra_predict (L : Coba.C06.Learner σ V) (k : Nat) (s : σ) (n : Nat)
+    (first : Option V × Option (List V)) (ctx : Option V) (acts : Option (List V)) :
+    ((probeWrap L k).predict (s, n, some first) ctx acts).2 = (L.predict s ctx acts).2 ∧
+    (n + 1 ≠ k → ((probeWrap L k).predict (s, n, some first) ctx acts).1.1 = (L.predict s ctx acts).1) ∧
+    (n + 1 = k → ((probeWrap L k).predict (s, n, some first) ctx acts).1.1 =
+      (L.predict (L.predict s ctx acts).1 first.1 first.2).1) :=
+  ⟨probeWrap_answer L k _ ctx acts, probeWrap_state_no_probe L k (s, n, some first) ctx acts,
+   probeWrap_state_probe L k s n first ctx acts⟩
+
+end phase5
+
+/-! ## phase 5: translator obligations — `Generated/C01Seeds.lean` is re-extracted from coba/evaluators/sequential.py on every run -/
+
+/-- the seed the model hands to every evaluation (`effSeed`: the evaluator's own seed, else the experiment seed) is the
+expression the source passes to `SafeLearner(learner, …)` in `SequentialCB.evaluate` — what `sequentialCB_pmf_rows` seeds
+the generator with -/
+theorem eff_seed_matches_source {S P Row : Type} (c : Comps S P Row) (seed v : Nat) :
+    some (effSeed c seed v) = Coba.Generated.C01.seqSeed (c.valSeed v) seed := by
+  unfold effSeed Coba.Generated.C01.seqSeed
+  cases c.valSeed v <;> rfl
+
+/-- sites that must agree: `RejectionCB.evaluate` seeds its `SafeLearner` and its own `CobaRandom` with the same
+expression as `SequentialCB.evaluate` -/
+theorem rejection_seed_sites_agree (own : Option Nat) (exp : Nat) :
+    Coba.Generated.C01.rejLearnerSeed own exp = Coba.Generated.C01.seqSeed own exp ∧
+    Coba.Generated.C01.rejRngSeed own exp = Coba.Generated.C01.seqSeed own exp := by
+  constructor <;> (cases own <;> rfl)
 
 end Coba.C01
